@@ -804,6 +804,43 @@ func (p *Program) originsCtx(v ssa.Value, start *originCtx, o originOpts) []ctxV
 		case *ssa.UnOp:
 			if x.Op == token.MUL {
 				rt := p.cellRoot(x.X)
+				// a variable of the caller reached through a pointer parameter (func pump(inErr *error)): what this
+				// function stored through the parameter and can still be there at the load; when no store of this
+				// function reaches the load the value is the caller's (the load stays the root)
+				if par, ok := rt.(*ssa.Parameter); ok && x.X == ssa.Value(par) {
+					if _, isPtr := par.Type().Underlying().(*types.Pointer); isPtr {
+						var local []*ssa.Store
+						eachInstr(par.Parent(), func(in ssa.Instruction) {
+							if st, ok := in.(*ssa.Store); ok && st.Addr == ssa.Value(par) {
+								local = append(local, st)
+							}
+						})
+						if len(local) > 0 {
+							isLocal := map[ssa.Instruction]bool{}
+							for _, st := range local {
+								isLocal[st] = true
+							}
+							n := 0
+							for _, st := range local {
+								st := st
+								q := pathQuery{fn: par.Parent(), start: st,
+									target:  func(y ssa.Instruction) bool { return y == ssa.Instruction(x) },
+									barrier: func(y ssa.Instruction) bool { return isLocal[y] && y != ssa.Instruction(st) }}
+								if w, _ := q.find(); w != nil {
+									n++
+									walk(st.Val, ctx)
+								}
+							}
+							// reachable from the entry without any store: the caller's value
+							q := pathQuery{fn: par.Parent(), target: func(y ssa.Instruction) bool { return y == ssa.Instruction(x) },
+								barrier: func(y ssa.Instruction) bool { return isLocal[y] }}
+							if w, _ := q.find(); w != nil || n == 0 {
+								root(v, ctx)
+							}
+							return
+						}
+					}
+				}
 				if al, ok := rt.(*ssa.Alloc); ok {
 					sts := p.reachingStores(al, x)
 					if len(sts) == 0 {
